@@ -5,6 +5,7 @@ from . import ops_branch
 from . import ops_ls
 from . import ops_block
 from . import ops_c09
+from . import ops_sys
 
 TABLE = Table()
 ops_dp.build_arm(TABLE)
@@ -14,6 +15,7 @@ ops_ls.build_arm(TABLE)
 ops_ls.build_thumb(TABLE)
 ops_block.build(TABLE)
 ops_c09.build(TABLE)
+ops_sys.build(TABLE)
 
 
 def rows_for(cls_name):
